@@ -26,6 +26,7 @@ VERIF = runner.VERIF
 def run_digests(prop, indices, verif_seed=0):
     L = runner.load_lentil()
     scn = scenarios.get(None, prop)
+    runner.prepare(scn, L)
     out = {}
     for i in indices:
         run = runner.make_run(scn, prop, verif_seed, i)
